@@ -127,6 +127,7 @@ def run(chk: Check, ctx: Any) -> None:
         "is cleared before each use; (R6) no interpreter-wide setting is changed at run time. Not decided: process restarts (hash seed), GC timing, "
         "igraph internals."
     )
+    chk.rule("C11-R7", "call histories evaluated in one interpreter (module-level, class-level and default-argument state persists, as in a process) against the same call in a fresh interpreter: other/same/failing programs first, a reused compiler object (also after a failure, also the same program twice); other/same/fallback routine sets before a decompilation; convert() leaves its input unchanged")
     chk.rule("C11-R1", "run-time written module-level state = audited table")
     chk.rule("C11-R2", "class-level mutable defaults modified through instances are shadowed in __init__")
     chk.rule("C11-R3", "compile(): every non-configuration attribute read or updated in place is assigned earlier in the same call")
@@ -234,6 +235,9 @@ def run(chk: Check, ctx: Any) -> None:
 
     # ------------------------------------------------------------------ R5
     memo_rules(chk, ctx, "C11-R5")
+    from .history import history_rule
+    history_rule(chk, ctx, "C11-R7")
+
 
 
 def memo_rules(chk: Check, ctx: Any, rule: str) -> None:
